@@ -225,11 +225,15 @@ class ReconnectLogic(zeroconf.RecordUpdateListener):
 
     def _schedule_connect(self, delay: float) -> None:
         """Schedule a connect attempt."""
+        # Always cancel a pending retry timer first, an immediate attempt
+        # (mDNS record, unexpected disconnect) replaces it as well. A stale
+        # timer would otherwise fire later and could start an attempt at
+        # the wrong time (ie. skip the expected disconnect cooldown).
+        self._cancel_connect_timer()
         if not delay:
             self._call_connect_once()
             return
         _LOGGER.debug("Scheduling new connect attempt in %.2f seconds", delay)
-        self._cancel_connect_timer()
         self._connect_timer = self.loop.call_at(
             self.loop.time() + delay, self._call_connect_once
         )
